@@ -66,6 +66,14 @@ def register(J):
                                "drop-in list and callback/data unchanged to the history reader; C06/C20: returns its "
                                "code, leaves its out-parameters as the reader set them, releases its private layer "
                                "list (no allocation of the call remains: CBMC memory-leak check)."))
+    J.append(Job("entry.econf_readConfig", ["C06", "C12"], "harness/entry_cfg.c", sources=["lib/libeconf.c"],
+                 contracts=["contracts/entry_cfg.h"], enforce="econf_readConfig", replace=["econf_readConfigWithCallback"],
+                 unwind=8, tier="T1", timeout=300, mem_gb=4, functions=["econf_readConfig"],
+                 expect=[r"econf_readConfig\.postcondition\.", r"econf_readConfigWithCallback\.precondition"],
+                 trusted=["econf_readConfigWithCallback records its arguments and hands back the environment's answer "
+                          "(logging contract; its behaviour is the subject of the bounded jobs wrappers.fn5/6.*)"],
+                 statement="C06/C12: econf_readConfig is econf_readConfigWithCallback with no callback and no data, "
+                           "every other argument unchanged, result and object handed on."))
     for n, fn in enumerate(["econf_requireOwner", "econf_requireGroup", "econf_requirePermissions",
                             "econf_followSymlinks", "econf_reset_security_settings"], 1):
         J.append(Job("security." + fn, ["C16", "C18"], "harness/security.c", sources=["lib/libeconf.c"],
